@@ -140,6 +140,8 @@ class Check(BaseCheck):
                  'A1:B2', 'CF()', 'MAX(CF(1),CF(2),CF(3))+A1', 'CONCATENATE(tagv,A1,CF("x"))', 'SUM(lst,CF(lst))', '1+2*3', 'xa*yb-zed', 'nosuch+A1', 'CF(1)+', 'SUM(1/0,A1)',
                  'IFERROR(A1/0,foo)', 'TEXTJOIN(",",TRUE,tagv,"c",A1)', 'INDEX(lst,2)+foo', 'ROMAN(foo+1990)', 'DATE(2020,1,foo)+A1', 'COUNTIF(B2:C3,">1")+foo', '"a"&foo&"b"&A1',
                  '(foo>A1)+(xa<=yb)+(zed<>1)+(tagv="p1")', 'IF(foo<A1,IF(xa>=yb,1,2),IF(zed=0.5,3,4))', '(A1<B2)&(B2<A1)&(foo=foo)&(tagv<"q")', 'AND(foo>1,A1>=2,xa<>yb)',
+                 'DATEVALUE("2021-06-01")+foo', 'YEAR("2020-02-29")&tagv', '"2020-03-01"+A1', 'DAYS("2021-03-01","2021-02-01")+foo', 'MONTH("5 May 2020")+xa', 'WEEKDAY("2020-02-29")&tagv',
+                 '"2021-01-01">"2020-12-31"', 'HOUR("2020-02-29T13:45:10")+foo', 'DATEVALUE("March 2020")+A1', 'N("2020-07-01"+0)+foo',
                  'YEAR("1999-12-31 23:00 XYZ")+foo', 'HOUR("2020-01-01 10:00 EST")&tagv', 'DATEVALUE("2021-06-01 BST")+A1', 'MONTH("5 May 2020 12:00 QQQ")',
                  'MAX(A1,foo)-MIN(xa,yb)+ABS(zed)', 'INDEX(lst,1)&"|"&TEXTJOIN("-",TRUE,tagv,foo)', 'SUMIF(B2:C3,">"&foo)+COUNT(lst)', 'IFERROR(1/(foo-foo),tagv)&(xa>yb)']
         for _ in range(n):
